@@ -38,6 +38,10 @@ func (s *StandaloneStatSlot) Order() uint32 {
 func (s StandaloneStatSlot) OnEntryPassed(ctx *base.EntryContext) {
 	res := ctx.Resource.Name()
 	for _, tc := range getTrafficControllerListFor(res) {
+		if tc.rule != nil && tc.rule.RelationStrategy == AssociatedResource {
+			// the statistic of an associated-resource rule counts the referenced resource (below)
+			continue
+		}
 		if !tc.boundStat.reuseResourceStat {
 			if tc.boundStat.writeOnlyMetric != nil {
 				tc.boundStat.writeOnlyMetric.AddCount(base.MetricEventPass, int64(ctx.Input.BatchCount))
@@ -45,6 +49,10 @@ func (s StandaloneStatSlot) OnEntryPassed(ctx *base.EntryContext) {
 				logging.Error(errors.New("nil independent write statistic"), "Nil statistic for traffic control in StandaloneStatSlot.OnEntryPassed()", "rule", tc.rule)
 			}
 		}
+	}
+	// independent statistics of the associated-resource rules that refer to this resource
+	for _, tc := range getRefStatControllerListFor(res) {
+		tc.boundStat.writeOnlyMetric.AddCount(base.MetricEventPass, int64(ctx.Input.BatchCount))
 	}
 }
 
